@@ -409,6 +409,9 @@ class Engine:
                 return base[3][i]
             if base[0] == "downcast" and base[1][0] == "agg":
                 return self.project(base[1], i, name, ty)
+            if base[0] == "upd":
+                # a field of a value one of whose fields was overwritten
+                return base[3] if base[2] == i else self.project(base[1], i, name, ty)
         return ("field", base, i, name, ty)
 
     def adt_variant_discr(self, adt_path, vidx):
@@ -592,6 +595,12 @@ class Frame:
                     ops.append(("uninit", 0))
                 ops[i] = val
                 self.write_lv(lv[1], base[:4] + (tuple(ops),), path)
+                return
+            if isinstance(base, tuple) and base[0] == "closure" and i < len(base[3]):
+                # a by-value capture updated inside the closure (`move || { bv.truncate(n); Seq { bv, .. } }`)
+                ops = list(base[3])
+                ops[i] = val
+                self.write_lv(lv[1], base[:3] + (tuple(ops),) + base[4:], path)
                 return
             if isinstance(base, tuple) and base[0] == "uninit":
                 ops = [("uninit", 0)] * (i + 1)
@@ -1275,6 +1284,13 @@ class Analysis:
                 "copied": [(some, ("val", _some(("deref", pay)))), (none, ("val", NONE))],
                 "cloned": [(some, ("val", _some(("call", "<T as std::clone::Clone>::clone", (pay,), None)))), (none, ("val", NONE))],
             }.get(n)
+        if alts is None and d == "std::clone::Clone::clone" and (ev.callee.get("self_ty") or "").startswith("std::option::Option<") and len(a) == 1:
+            # cloning an Option is cloning its payload: `x.clone().ok_or(e)` and `match x { Some(v) => Ok(v.clone()), None => Err(e) }`
+            o = self._value_of(frame, a[0])
+            if isinstance(o, tuple) and not _is_opt(o):
+                D = ("discr", o)
+                pay = proj(("downcast", o, 1, "Some"), 0, "0", None)
+                alts = [((D, ("==", 1)), ("val", _some(("call", "<T as std::clone::Clone>::clone", (pay,), None)))), ((D, ("==", 0)), ("val", NONE))]
         m = self.RES_RE.match(d) if alts is None else None
         if m and a and not (isinstance(a[0], tuple) and a[0][0] == "agg"):
             r = self._value_of(frame, a[0])
